@@ -52,6 +52,7 @@ class Framer(object):
         self.active = None
         self.actives = []
         self.main = None
+        self.original = True
         self.stamp = 0
         self.elapsed = 0
         self.recurred = 0
@@ -61,6 +62,7 @@ class Framer(object):
 
 class Machine(object):
     def __init__(self, prog):
+        prog = floeng.expand(prog)          # named clones of moot framers as explicit (non-original) auxiliaries
         self.prog = prog
         self.now = 0
         self.vals = list(prog["shares"])
@@ -70,6 +72,8 @@ class Machine(object):
         self.cov = {}
         self.outcomes = {}          # id(need dict) -> set of outcomes seen
         self.framers = [Framer(i, fr["sched"]) for i, fr in enumerate(prog["framers"])]
+        for F, fr in zip(self.framers, prog["framers"]):
+            F.original = fr.get("original", True)   # a clone belongs to its one clause: never claimed, never released
         g = 0
         for i, fr in enumerate(prog["framers"]):
             F = self.framers[i]
@@ -144,6 +148,8 @@ class Machine(object):
                         fm.condauxes.append(self.framers[it["aux"]])
                     else:
                         fm.auxes.append(self.framers[it["aux"]])
+                    if not self.framers[it["aux"]].original:
+                        self.framers[it["aux"]].main = fm       # a clone belongs to the frame of its clause for good
 
     def hit(self, key):
         self.cov[key] = self.cov.get(key, 0) + 1
@@ -238,10 +244,11 @@ class Machine(object):
         for aux in fm.auxes:
             if aux.main is not None and aux.main is not fm and aux.main not in exits:
                 return False
-            if aux in claimed:
-                self.hit("aux-claimed-twice")
-                return False
-            claimed.append(aux)
+            if aux.original:
+                if aux in claimed:
+                    self.hit("aux-claimed-twice")
+                    return False
+                claimed.append(aux)
             if not self.can_start(aux, claimed):
                 return False
         return True
@@ -255,19 +262,24 @@ class Machine(object):
             self.act(a, fm, "enter")
         for aux in fm.auxes:
             self.hit("aux-enter")
-            aux.main = fm
+            if aux.original:
+                aux.main = fm
+            else:
+                self.hit("clone-enter")
             self.enter_all(aux)
 
     def exit_frame(self, fm):
         for aux in fm.auxes:
             self.exit_all(aux)
-            aux.main = None
+            if aux.original:
+                aux.main = None
         for a in fm.exacts:
             self.act(a, fm, "exit")
         for aux in fm.condauxes:
-            if not aux.done and aux.main is fm:         # only the frame the auxiliary is running for exits it
+            if not aux.done and (aux.main is fm or not aux.original):   # only the frame it is running for exits it
                 self.exit_all(aux)
-                aux.main = None
+                if aux.original:
+                    aux.main = None
 
     # ---------------------------------------------------------------- framers
     def enter_frames(self, F, frames):
@@ -360,6 +372,9 @@ class Machine(object):
                           "key": floeng.mark_key(self.prog, F.idx, fm.local, nd), "transit": True}, fm, "transit")
 
     def conditional(self, F, main, nds, aux):
+        if aux in main.auxes:                           # also a plain auxiliary of the frame: it lives with the frame
+            self.hit("susp-plain-too")
+            return False
         if aux.done:
             if not self.needs(nds, F, main):
                 return False
@@ -368,7 +383,8 @@ class Machine(object):
             if not self.can_start(aux):
                 return False
             self.transit_marks(nds, F, main)
-            aux.main = main
+            if aux.original:
+                aux.main = main
             if len(F.actives) < len(F.active.outline):
                 self.hit("susp-nested-start")
             self.enter_all(aux)
@@ -376,12 +392,13 @@ class Machine(object):
             if aux.done:
                 self.hit("susp-done-first-run")
                 self.exit_all(aux)
-                aux.main = None
+                if aux.original:
+                    aux.main = None
                 return False
             self.hit("susp-start")
             F.actives = list(main.head)
             return True
-        if aux.main is not main:                        # running for another frame: not this clause's business
+        if aux.original and aux.main is not main:       # running for another frame: not this clause's business
             self.hit("susp-not-owner")
             return False
         self.segue(aux)
@@ -389,7 +406,8 @@ class Machine(object):
         if aux.done:
             self.hit("susp-complete")
             self.exit_all(aux)
-            aux.main = None
+            if aux.original:
+                aux.main = None
             F.actives = list(F.active.outline)
             return False
         self.hit("susp-continue")
